@@ -6,6 +6,7 @@ CONSTANTS
   MaxInst = 0
   NZ = 1
   MaxReq = 0
+  MaxPureTaken = 0
   NForeign = 0
   CJ = FALSE
   NTraces = @@NTRACES@@
